@@ -463,7 +463,9 @@ let () =
                     bump ("unmodelled:" ^ opname);
                     (* not modelled: OK() and the agreement of both descriptions are still judged; then adopt *)
                     List.iter (fun st ->
-                      report (opname ^ "/OK") (line ^ " @obj " ^ string_of_int st.sid) (if st.sok then Ok else Fail "OK() returned false");
+                      if st.sok || not !tainted then
+                        report (opname ^ "/OK") (line ^ " @obj " ^ string_of_int st.sid) (if st.sok then Ok else Fail "OK() returned false");
+                      if not st.sok then tainted := true;
                       resync st) sts)
               | "res" :: "exn" :: cls :: _ ->
                   report (opname ^ "/exception") line (Fail ("unexpected exception " ^ cls)); dead := true
